@@ -306,6 +306,13 @@ theorem apply_roles {s s' : St} {o : Op} (h : Roles s) (e : apply s o = .ok s') 
   | update m => exact updateState_roles h e
   | fraud au ra hh rev p rw => exact fraud_roles h e
   | obsolete au vs => exact markObsolete_roles h e
+  | punish au a rw => exact h.frame (punish_frame h.core.uniq (punishProposal_ok e).2)
+  | transferOwner sg ra' no =>
+    obtain ⟨r, hg, _, _, _, rfl⟩ := transferOwner_ok e
+    exact h.frame (Frame.of_setRa (r0 := r) h.core.uniq hg (by rfl) (by rfl) (by rfl))
+  | setSeqParams au sp =>
+    obtain ⟨_, hnp, _, rfl⟩ := setSeqParams_ok e
+    exact ⟨h.core.of_sub' rfl rfl (fun _ he => he) rfl hnp, h.sp.of_ras rfl⟩
   | begin_ dt => simp only [apply] at e; injection e with e; subst e; exact beginBlock_roles h
   | end_ f => simp only [apply] at e; injection e with e; subst e; exact h.frame (endBlock_frame h.core.uniq)
 
